@@ -155,10 +155,16 @@ inductive Ev where
   | appCancel (u : Nat)            -- the user cancels task `W u`
   deriving DecidableEq, Repr, Inhabited
 
-/-- application-level observables, in order -/
-def St.trace2 (s : St) : List AObs := s.tr.filterMap fun o => match o with
+def PObs.appOf : PObs → Option AObs
   | .app a => some a
   | .inner _ => none
+
+def PObs.innerOf : PObs → Option Sess.Obs
+  | .inner o => some o
+  | .app _ => none
+
+/-- application-level observables, in order -/
+def St.trace2 (s : St) : List AObs := s.tr.filterMap PObs.appOf
 
 def St.taken2 (s : St) : List Nat := (s.gone2.filter (·.2)).map (·.1)
 def St.lost2 (s : St) : List Nat := (s.gone2.filter (fun p => !p.2)).map (·.1)
@@ -243,11 +249,15 @@ def entered (l : List Sess.Obs) : List Nat := l.filterMap fun o => match o with
   | .msgEnter n => some n
   | _ => none
 
-/-- `_on_soup_message` for the inner messages whose callback was entered: decode and put -/
-def feed (a : ACfg) (s : St) (ns : List Nat) : St :=
-  ns.foldl (fun s n => match a.dec n with
-    | .val v => s.put2 v
-    | _ => s) s
+/-- `_on_soup_message` for the inner message `n`: decode and put (nothing for a packet that is not `SequencedData`; when `decode`
+    raises nothing is put and the inner dispatcher logs the exception — the inner machine's `msgRaise`) -/
+def feed1 (a : ACfg) (s : St) (n : Nat) : St :=
+  match a.dec n with
+  | .val v => s.put2 v
+  | _ => s
+
+/-- `_on_soup_message` for the inner messages whose callback was entered -/
+def feed (a : ACfg) (s : St) (ns : List Nat) : St := ns.foldl (feed1 a) s
 
 /-- run the inner event `e`; append what it emitted to the merged trace; `_on_soup_message` (decode and put) for every inner
     message callback the step entered -/
